@@ -47,3 +47,10 @@ Theorem c06_descend_choice_is_source :
     forall o : comparison, gtrue (upd env0 "cmp" (cmpz o)) c = Some (match o with Gt => true | _ => false end).
 Proof. exact Decisions.descend_choice_decision. Qed.
 Print Assumptions c06_descend_choice_is_source.
+
+(* visitNodes stops as soon as the visitor answers false *)
+Theorem c06_visitor_stop_is_source :
+  exists c, decisions "Store.visitNodes" "visitor" = [c] /\
+    forall answer : bool, gtrue (upd env0 "visitor(nItem,depth)" (b2z answer)) c = Some (negb answer).
+Proof. exact Decisions.visitor_stop_decision. Qed.
+Print Assumptions c06_visitor_stop_is_source.
